@@ -604,6 +604,7 @@ func main() {
 	writeFile("Baked.lean", genBaked(facts))
 	writeFile("SszSchema.lean", genSsz(facts))
 	writeFile("NodeGlue.lean", genNodeGlue(facts))
+	writeFile("Board.lean", genBoard(facts))
 	genFacts(facts)
 	facts["machines"] = ms
 	bz, _ := json.MarshalIndent(facts, "", " ")
